@@ -232,7 +232,8 @@ class Prop(bfs.BfsProp):
         return 2 if tier == 'quick' else 4
 
     def bounds(self, tier):
-        return {'depth': self.depth(tier), 'seeds': len(seed_list(tier)), 'menu': '<= ~45 instances per state'}
+        return {'depth': self.depth(tier), 'seeds': len(seed_list(tier)), 'menu': '<= ~65 instances per state; at the fourth level of the thorough tier one representative per '
+                                                                   'operation kind and dimension (~35)'}
 
     def seeds(self, tier):
         return seed_list(tier)
@@ -267,6 +268,23 @@ class Prop(bfs.BfsProp):
 
     def menu(self, state):
         return menu(state)
+
+    def menu_at(self, state, hist):
+        """the full menu below the depth bound; at the bound of the thorough tier (fourth operation) one
+        representative per kind of operation and dimension"""
+        ops_ = menu(state)
+        if self.tier != 'thorough' or len(hist) < 3:
+            return ops_
+        keep = []
+        for op in ops_:
+            if op.get('alias'):
+                continue
+            if op['op'] == 'slice' and op['sel'][0][1] not in (['i', 0], ['s', 1, None, None]):
+                continue
+            if op['op'] == 'apply' and op['fn'][1] not in ('mean', 'diff', 'reverse'):
+                continue
+            keep.append(op)
+        return keep
 
     def apply(self, state, op):
         return do_op(state, op)
